@@ -43,8 +43,17 @@ class _Defer(Top):
         super().__init__(*(a or ("a tensor is used where the analyser handles scalars only",)))
 
 
+_CANON_REPR = [False]
+
+
 def _key(x):
-    return repr(x)
+    """canonical text of a value, used for hashing and ordering (equal values have equal keys: see Sym.__repr__)"""
+    prev = _CANON_REPR[0]
+    _CANON_REPR[0] = True
+    try:
+        return repr(x)
+    finally:
+        _CANON_REPR[0] = prev
 
 
 # ======================================================================================
@@ -513,6 +522,9 @@ def as_pred(x):
 # ======================================================================================
 # opaque terms
 # ======================================================================================
+ROWS_REST = '<all the other axes in full>'
+
+
 class Sym:
     """uninterpreted term op(args); hashable, structural equality"""
     __slots__ = ("op", "args", "_h")
@@ -523,19 +535,34 @@ class Sym:
         self._h = None
 
     def __eq__(self, o):
-        return isinstance(o, Sym) and self.op == o.op and self.args == o.args
+        if not (isinstance(o, Sym) and self.op == o.op):
+            return False
+        if self.op == 'dynamic_slice' and (self._rows_only() or o._rows_only()):
+            # a window of ROWS of x (dynamic_slice_in_dim(x, i, b, axis=0)) is dynamic_slice(x, (i, 0, ...), (b, full, ...)): when one
+            # side is written that way, only the store, the first start index and the number of rows are compared
+            a, b = self.args, o.args
+            return len(a) == 3 and len(b) == 3 and a[0] == b[0] and a[1][:1] == b[1][:1] and a[2][:1] == b[2][:1] and \
+                all(x == 0 or x == ROWS_REST for x in a[1][1:] + b[1][1:])
+        return self.args == o.args
+
+    def _rows_only(self):
+        return len(self.args) == 3 and isinstance(self.args[1], tuple) and ROWS_REST in self.args[1]
 
     def __ne__(self, o):
         return not self.__eq__(o)
 
     def __hash__(self):
         if self._h is None:
-            self._h = hash((self.op, _key(self.args)))
+            self._h = hash(_key(self))
         return self._h
 
     def __repr__(self):
         if not self.args:
             return str(self.op)
+        if _CANON_REPR[0] and self.op == 'dynamic_slice' and len(self.args) == 3 and isinstance(self.args[1], tuple) \
+                and isinstance(self.args[2], tuple) and all(x == 0 or x == ROWS_REST for x in self.args[1][1:]):
+            # key of a window of rows: the two spellings (explicit zeros / dynamic_slice_in_dim) share it
+            return f"dynamic_slice({self.args[0]!r}, {self.args[1][:1]!r}, {self.args[2][:1]!r})"
         return f"{self.op}(" + ", ".join(map(repr, self.args)) + ")"
 
     # numbers
